@@ -106,38 +106,8 @@ mod c02 {
         assert!(set.used_bitmap[j] == 0);
     }
 
-    fn zero_random_state() -> std::hash::RandomState { unsafe { std::mem::zeroed() } }
-    fn zero_instant() -> std::time::Instant { unsafe { std::mem::zeroed() } }
-
-    /// twin of the Verus contracts of ResponseHandlerMap::{allocate, orphan, lookup} on the compiled code, one short
-    /// history: A allocated, A abandoned, B allocated before the server answered A => B must NOT get A's stream id,
-    /// and A's late response must be reported as Orphaned, never delivered to B.
-    #[kani::proof]
-    #[kani::unwind(10)]
-    #[kani::stub(std::rt::thread_cleanup, noop)]
-    #[kani::stub(std::hash::RandomState::new, zero_random_state)]
-    #[kani::stub(std::time::Instant::now, zero_instant)]
-    fn c02_twin_orphaned_id_stays_reserved() {
-        let mut bitmap = [!0u64; 8];
-        bitmap[0] = !0b11; // two free ids: 0 and 1
-        let mut m = std::mem::ManuallyDrop::new(ResponseHandlerMap {
-            stream_set: StreamIdSet { used_bitmap: Box::new(bitmap) },
-            handlers: HashMap::new(),
-            request_to_stream: HashMap::new(),
-            orphanage_tracker: OrphanageTracker::new(),
-        });
-        let (tx_a, _rx_a) = oneshot::channel();
-        let (tx_b, _rx_b) = oneshot::channel();
-        let a = match m.allocate(ResponseHandler { response_sender: tx_a, request_id: 7 }) { Ok(id) => id, Err(_) => { assert!(false); return; } };
-        m.orphan(7);
-        let b = match m.allocate(ResponseHandler { response_sender: tx_b, request_id: 8 }) { Ok(id) => id, Err(_) => { assert!(false); return; } };
-        assert!(a == 0 && b == 1, "an abandoned request keeps its stream id until the server answers");
-        let la = std::mem::ManuallyDrop::new(m.lookup(a));
-        assert!(matches!(&*la, HandlerLookupResult::Orphaned), "the late response to the abandoned request is dropped, not delivered");
-        let lb = std::mem::ManuallyDrop::new(m.lookup(b));
-        assert!(matches!(&*lb, HandlerLookupResult::Handler(h) if h.request_id == 8), "B receives exactly its own response");
-    }
-
+    // (A Kani twin driving ResponseHandlerMap through allocate/orphan/allocate/lookup with real std HashMaps was tried:
+    //  no answer after 40 min and 8 GB — std HashMap is out of CBMC's reach here, so the map is covered by Verus only.)
     fn noop() {}
 
     /// canary: claim that allocate returns id 0 on any state with a free id (false) must be refuted
